@@ -756,6 +756,29 @@ class Driver:
                 self.shadow.extend(b"\0" * (off - len(self.shadow)))
             self.shadow[off:off + len(data)] = data
 
+    def op_truncscan(self, op):
+        """Cut the closed file 'a' at chosen byte positions (chunk boundaries and a few bytes around / inside them) and
+        observe each truncated copy like a crash image whose last write is incomplete (all links are final here)."""
+        import lifter
+        with open(self.path(op.get("file", "a")), "rb") as f:
+            img = f.read()
+        fh, chunks, why = lifter.parse_image(img)
+        rng = np.random.default_rng(op.get("seed", 1))
+        cuts = set()
+        for ch in chunks:
+            o = ch["off"]
+            size = 32 + (lifter.disk_size(ch["plen"]) if ch["plen"] else 0)
+            for c in (o, o + 8, o + 31, o + 32, o + 33, o + size // 2, o + size - 4, o + size - 1):
+                if 32 < c < len(img):
+                    cuts.add(c)
+        cuts = sorted(cuts)
+        count = op.get("count", 40)
+        if len(cuts) > count:
+            cuts = sorted(int(c) for c in rng.choice(np.array(cuts), size=count, replace=False))
+        last_defs = max([q for q, k in self.kinds.items() if k in ("SourceDef", "SignalDef", "WOpen")] + [0])
+        for c in cuts:
+            self.crash_obs(img[:c], -1, 1, self.q, False, True)
+
     def observe_reader(self, h, defs=False):
         """dump of everything the reader exposes, as compact projections (runs, tokens)"""
         obs = {"sigs": [], "annos": [], "utcs": []}
